@@ -670,7 +670,8 @@ class Class(vppfs.VPPModelElement):
                 if assoc.TYPE.lower().find("composition") > -1:
                     if not IsTypePrimitive(assoc.CLASS_TO):  # -> YOU never know who may do such a thing.
                         filterValue.add(assoc.CLASS_TO)
-        return filterValue
+        # sorted : the iteration order of a set of strings changes from process to process (hash randomisation)
+        return sorted(filterValue)
 
     def GetForwardDeclarableNonPrimitiveTypesLinkedToThis(self):
         """
@@ -733,7 +734,8 @@ class Class(vppfs.VPPModelElement):
             if i in filterPtrOrRef:
                 filterPtrOrRef.remove(i)
 
-        return filterPtrOrRef
+        # sorted : the iteration order of a set of strings changes from process to process (hash randomisation)
+        return sorted(filterPtrOrRef)
 
     def GetAssociationsAsListOfAttributesPerVisibility(self, visibility="all"):
         """
@@ -952,7 +954,8 @@ class ClassDiagram:
             for s in set2:
                 if s.find(namespace) == -1:
                     result[namespace].add(s.rpartition("::")[0])
-        return result
+        # sorted : see above
+        return {namespace: sorted(dependencies) for namespace, dependencies in result.items()}
 
 ''' USE THIS FUNCTION to extract a named class diagram from a VPP file.
     input : class diagram name
